@@ -287,6 +287,12 @@ for n in (0, 1, 3):
     H("C07", "internal", "c07_term_encode_n%d" % n, tq=900, mem="heavy", bounds="term record, %d-byte name; id, obsolete, replacement symbolic" % n)
 H("C07", "internal", "c07_term_parents_encode", tq=600, bounds="0..2 parents, ids symbolic")
 H("C07", "ontology", "c07_file_header_encode", bounds="all release dates (u16,u8,u8)")
+H("C07", "ontology", "c07_empty_ontology_has_five_sections", tq=900, mem="medium", bounds="Ontology::as_bytes on an ontology without terms/annotations; release year symbolic")
+H("C07", "gene", "c07_gene_encode_n2_t0", tq=900, mem="medium", bounds="gene record shape n2_t0 (2-byte name: multi-byte character possible)")
+H("C07", "disease", "c07_omim_encode_n2_t0", tq=900, mem="medium", bounds="omim disease record shape n2_t0")
+H("C07", "disease", "c07_orpha_encode_n2_t0", tq=900, mem="medium", bounds="orpha disease record shape n2_t0")
+H("C07", "disease", "c07_omim_encode_multibyte_name", tq=900, mem="medium", bounds="omim record, fixed 2-byte name, id and term symbolic")
+H("C07", "disease", "c07_orpha_encode_multibyte_name", tq=900, mem="medium", bounds="orpha record, fixed 2-byte name, id and term symbolic")
 H("C07", "gene", "c07_gene_name_cap_utf8", tier="thorough", mem="heavy", tt=3600, deep=True, bounds="258-byte name, symbolic 1-3-byte character at the 255-byte cut")
 H("C07", "internal", "c07_term_name_cap_utf8", tier="thorough", mem="heavy", tt=3600, deep=True, bounds="258-byte name, symbolic 1-3-byte character at the 255-byte cut")
 H("C07", "gene", "c07_gene_twin_must_fail", expect="fail")
